@@ -328,20 +328,32 @@ func runCollectAll(p *Prog, r *Report) {
 							return true
 						})
 						if miss == "" && roleOfType(info.TypeOf(rs.X)) == roleOTHER {
-							// position test on a collection that spans several files
+							// position test on a collection that spans several files (written in place or
+							// in a predicate helper)
+							conds := []ast.Expr{ifs.Cond}
 							ast.Inspect(ifs.Cond, func(c ast.Node) bool {
-								if call, ok := c.(*ast.CallExpr); ok && lastSel(call.Fun) == "ContainsPos" {
-									if vid, ok := rs.Value.(*ast.Ident); ok && vid.Name != "_" && mentionsVar(fn, call.Fun, info.ObjectOf(vid), 2) {
-										miss = exprStr(ifs.Cond) + " (a position test on the element: several items of " + cmpText(rs.X) + " may contain the position, e.g. targets that share a definition range)"
-									}
-								}
-								if sel, ok := c.(*ast.SelectorExpr); ok && (sel.Sel.Name == "Byte" || sel.Sel.Name == "Line" || sel.Sel.Name == "Column") {
-									if tv := info.TypeOf(sel.X); tv != nil && isHclPos(tv) {
-										miss = exprStr(ifs.Cond) + " (a position test: " + cmpText(rs.X) + " holds items of several files and is not ordered by byte offset)"
+								if call, ok := c.(*ast.CallExpr); ok {
+									if b := fn.inlinePredicateCall(call); b != nil {
+										conds = append(conds, b)
 									}
 								}
 								return true
 							})
+							for _, cnd := range conds {
+								ast.Inspect(cnd, func(c ast.Node) bool {
+									if call, ok := c.(*ast.CallExpr); ok && lastSel(call.Fun) == "ContainsPos" {
+										if vid, ok := rs.Value.(*ast.Ident); ok && vid.Name != "_" && mentionsVar(fn, call.Fun, info.ObjectOf(vid), 2) {
+											miss = exprStr(ifs.Cond) + " (a position test on the element: several items of " + cmpText(rs.X) + " may contain the position, e.g. targets that share a definition range)"
+										}
+									}
+									if sel, ok := c.(*ast.SelectorExpr); ok && (sel.Sel.Name == "Byte" || sel.Sel.Name == "Line" || sel.Sel.Name == "Column") {
+										if tv := info.TypeOf(sel.X); tv != nil && isHclPos(tv) {
+											miss = exprStr(ifs.Cond) + " (a position test: " + cmpText(rs.X) + " holds items of several files and is not ordered by byte offset)"
+										}
+									}
+									return true
+								})
+							}
 						}
 						if miss != "" {
 							r.Add("E15.collect-all", fn.Name, construct, p.Pos(s), Violated,
@@ -1181,7 +1193,52 @@ func runByteTrim(p *Prog, r *Report) {
 				return false
 			}
 			se, ok := m.(*ast.SliceExpr)
-			if !ok || se.High == nil || se.Low != nil && exprStr(se.Low) != "0" {
+			if !ok {
+				return true
+			}
+			// x[1:] of text drops "the first character" the same way
+			if se.High == nil && se.Low != nil {
+				if v, isConst := constInt(info, se.Low); isConst && v == 1 {
+					if t := info.TypeOf(se.X); t != nil {
+						isText := false
+						if sl, ok := t.Underlying().(*types.Slice); ok {
+							if bt, ok := sl.Elem().Underlying().(*types.Basic); ok && bt.Kind() == types.Byte {
+								isText = true
+							}
+						}
+						if bt, ok := t.Underlying().(*types.Basic); ok && bt.Info()&types.IsString != 0 {
+							isText = true
+						}
+						if isText {
+							n++
+							ascii := false
+							for _, a := range fn.GuardsAt(se).AllAtoms() {
+								if a == nil || a.E == nil {
+									continue
+								}
+								ast.Inspect(a.E, func(z ast.Node) bool {
+									if ix, ok := z.(*ast.IndexExpr); ok && exprStr(ix.X) == exprStr(se.X) {
+										if c, isC := constInt(info, ix.Index); isC && c == 0 {
+											ascii = true
+										}
+									}
+									if c, ok := z.(*ast.CallExpr); ok && (strings.HasPrefix(calleeFull(info, c), "strings.HasPrefix") || strings.HasPrefix(calleeFull(info, c), "bytes.HasPrefix")) && len(c.Args) == 2 && exprStr(c.Args[0]) == exprStr(se.X) {
+										ascii = true
+									}
+									return true
+								})
+							}
+							if ascii {
+								r.Add("E6.rune-trim", fn.Name, exprStr(se), p.Pos(se), OK, "the dropped first byte was tested first", true)
+							} else {
+								r.Add("E6.rune-trim", fn.Name, exprStr(se), p.Pos(se), Violated, "drops the first byte as if it were one character: when the first character is multi-byte the text starts inside a UTF-8 sequence and derived positions are off", true)
+							}
+						}
+					}
+				}
+				return true
+			}
+			if se.High == nil || se.Low != nil && exprStr(se.Low) != "0" {
 				return true
 			}
 			t := info.TypeOf(se.X)
@@ -1200,7 +1257,7 @@ func runByteTrim(p *Prog, r *Report) {
 			if !isText {
 				return true
 			}
-			be, ok := ast.Unparen(se.High).(*ast.BinaryExpr)
+			be, ok := ast.Unparen(fn.InlineLocals(se.High, 2)).(*ast.BinaryExpr)
 			if !ok || be.Op != token.SUB {
 				return true
 			}
